@@ -7,7 +7,7 @@ use std::rc::Rc;
 use vcore::num::EPS;
 use vcore::{json, Check, Outcome, Report, Tier, Value};
 
-pub const K: f64 = 25.0;
+pub const K: f64 = 10.0;
 /// constant of the global bounds of C04 (worst observed ratio on the repaired tree: 1.0 x G x tol, so 6 leaves a factor 6)
 pub const KG: f64 = 6.0;
 const PROBLEMS12: [&str; 12] = ["lin+1", "lin-2", "logistic", "gauss", "cost", "relax", "bernoulli", "osc1", "rot2:lin-2+logistic", "rot2:cost+relax", "rot3:osc2.5+gauss", "rot4:osc1+logistic+bernoulli"];
